@@ -130,9 +130,59 @@ def _listdir(path="."):
     return names
 
 
+_REAL_SCANDIR = os.scandir
+_SCAN_MODE = [None]  # None | "sorted" | "reversed": order in which os.scandir (os.walk, shutil.copytree) yields entries
+
+
+class _Scan:
+    """os.scandir result with a forced order (iterator + context manager, like the real one)"""
+
+    def __init__(self, it, reverse):
+        with it:
+            self._entries = sorted(it, key=lambda e: e.name, reverse=reverse)
+        self._it = iter(self._entries)
+
+    def __iter__(self):
+        return self
+
+    def __next__(self):
+        return next(self._it)
+
+    def __enter__(self):
+        return self
+
+    def __exit__(self, *a):
+        return False
+
+    def close(self):
+        pass
+
+
+def _scandir(path="."):
+    it = _REAL_SCANDIR(path)
+    mode = _SCAN_MODE[0]
+    if mode is None:
+        return it
+    return _Scan(it, mode == "reversed")
+
+
 def install_listing_shim():
     if os.listdir is not _listdir:
         os.listdir = _listdir
+    if os.scandir is not _scandir:
+        os.scandir = _scandir
+
+
+class scan_order:
+    def __init__(self, mode):
+        self.mode = mode
+
+    def __enter__(self):
+        install_listing_shim()
+        self.old, _SCAN_MODE[0] = _SCAN_MODE[0], self.mode
+
+    def __exit__(self, *a):
+        _SCAN_MODE[0] = self.old
 
 
 class listing_order:
@@ -251,12 +301,12 @@ def observe_project(path, source):
             "halfjobs": sorted(i for i in jobs if i not in present)}
 
 
-def run_export(source, order_ids, target, path, copytree=None, project=None):
+def run_export(source, order_ids, target, path, copytree=None, project=None, scan=None):
     """export_to with the workspace listed in the given order. -> (mapping | None, exception | None)"""
     project = project or source.project
     import signac
     project = signac.get_project(project.path)  # fresh session
-    with listing_order(project.workspace, order_ids), warnings.catch_warnings():
+    with listing_order(project.workspace, order_ids), scan_order(scan), warnings.catch_warnings():
         warnings.simplefilter("ignore")
         try:
             kw = {} if copytree is None else {"copytree": copytree}
@@ -265,11 +315,11 @@ def run_export(source, order_ids, target, path, copytree=None, project=None):
             return None, e
 
 
-def run_import(dst_root, origin, schema=None):
+def run_import(dst_root, origin, schema=None, scan=None):
     """import_from into the project at dst_root (fresh session). -> (mapping | None, exception | None)"""
     import signac
     project = signac.get_project(dst_root)
-    with warnings.catch_warnings():
+    with scan_order(scan), warnings.catch_warnings():
         warnings.simplefilter("ignore")
         try:
             return project.import_from(origin=origin, schema=schema), None
